@@ -86,7 +86,32 @@ def runner_source(path: Path, rel: str = None) -> str:
     rest_e = [k for k in first_assignment_order(text) if k in extra and k not in mp]
     if rest_m and len(rest_m) == len(rest_e) and all(similarity(extra[e], missing[m]) >= 0.5 for e, m in zip(rest_e, rest_m)):
         mp.update(dict(zip(rest_e, rest_m)))
-    return rename(text, mp) if mp else text
+    text = rename(text, mp) if mp else text
+    return inline_new_constants(text, set(k for k in ref if not k.startswith("__")))
+
+
+def inline_new_constants(text: str, known: set) -> str:
+    """"introduce variable" undone: a variable the reference script does not have, assigned exactly once (at the left margin of a line of its own,
+    before any use) to a literal word without expansions, is its value wherever it is read; the assignment goes."""
+    cur = script_vars(text)
+    for v in sorted(cur - known):
+        pat = re.compile(r"(?m)^[ \t]*(?:export[ \t]+)?" + re.escape(v) + r"=(\"[^\"$`\\\n]*\"|'[^'\n]*'|[A-Za-z0-9_./:+-]+)[ \t]*$")
+        all_assign = re.findall(r"(?m)^[ \t]*(?:export[ \t]+|local[ \t]+)?" + re.escape(v) + r"\+?=", text)
+        m = pat.search(text)
+        if m is None or len(all_assign) != 1 or re.search(r"\bfor[ \t]+" + re.escape(v) + r"\b|getopts[^\n]*\b" + re.escape(v) + r"\b|read[ \t]+[^\n]*\b" + re.escape(v) + r"\b", text):
+            continue
+        if "export" in m.group(0).split("=")[0]:
+            continue                      # an exported variable is an interface to the programs the script starts
+        val = m.group(1)
+        if val[:1] in "\"'":
+            val = val[1:-1]
+        use = re.compile(r"\$\{" + re.escape(v) + r"\}|\$" + re.escape(v) + r"\b")
+        first_use = use.search(text)
+        if first_use is not None and first_use.start() < m.start():
+            continue
+        text = text[:m.start()] + text[m.end():]
+        text = use.sub(lambda _m: val, text)
+    return text
 
 
 def first_assignment_order(text: str):
